@@ -1141,3 +1141,74 @@ def shift_clause(vals, kind, num, limiter):
                              max_diff=float(np.max(np.abs(np.roll(a, k) - b))))
                         ok = False
     return ok
+
+
+# --------------------------------------------------------------------------------------
+# C13
+
+def mirror_clause(vals, kind, num, limiter, bcL, bcR):
+    import flowdyn.mesh as mesh, flowdyn.modeldisc as md, flowdyn.field as field
+    ok = True
+    sgn = {"convection": [1], "burgers": [-1], "shallowwater": [1, -1], "euler1d": [1, -1, 1], "nozzle": [1, -1, 1]}[kind]
+    for n in (1, 2, 3, 4, 9):
+        for flux in ([None] if kind in ("convection", "burgers") else list(build_model(kind, vals)._numfluxdict.dict.keys())):
+            m1 = build_model(kind, dict(vals, a=1.5))
+            m2 = build_model(kind, dict(vals, a=-1.5))
+            msh1 = mesh.morphedmesh(ncell=n, length=1.0, morph=lambda x: x + 0.4 * x * x)
+            msh2 = mesh.morphedmesh(ncell=n, length=1.0, morph=lambda x: x)
+            msh2.xf = -msh1.xf[::-1].copy()
+            msh2.xc = msh2.calc_centers()
+            msh2.length = msh1.length
+            P = _random_prim(kind, n, seed=20 + n)
+            P = [1.0 + 0.05 * (p - 1.0) if (kind not in ("convection", "burgers") and j != 1) else 0.3 * p for j, p in enumerate(P)]
+            W0 = [float(p[0]) for p in P]
+
+            def bcd(name, flip):
+                d = _bc(kind, name, W0)
+                if name == "dirichlet" and flip:
+                    pr = list(d["prim"])
+                    if kind == "burgers":
+                        pr[0] = -pr[0]
+                    elif kind != "convection":
+                        pr[1] = -pr[1]
+                    d["prim"] = pr
+                return d
+            nm = _make_num(num, limiter, 0.2)
+            d1 = md.fvm1d(m1, msh1, nm, numflux=flux, bcL=bcd(bcL, False), bcR=bcd(bcR, False))
+            d2 = md.fvm1d(m2, msh2, nm, numflux=flux, bcL=bcd(bcR, True), bcR=bcd(bcL, True))
+            P2 = [(-p if (kind == "burgers" or (kind not in ("convection",) and j == 1)) else p)[::-1].copy() for j, p in enumerate(P)]
+            r1 = [x.copy() for x in d1.rhs(field.fdata(m1, msh1, m1.prim2cons(P)))]
+            r2 = d2.rhs(field.fdata(m2, msh2, m2.prim2cons(P2)))
+            if not all(np.all(np.isfinite(x)) for x in r1):
+                continue
+            for k in range(len(r1)):
+                if not close(r2[k], sgn[k] * r1[k][::-1], rtol=1e-9):
+                    show(kind=kind, num=num, limiter=limiter, flux=flux, bc=(bcL, bcR), n=n, comp=k,
+                         max_diff=float(np.max(np.abs(r2[k] - sgn[k] * r1[k][::-1]))))
+                    ok = False
+    return ok
+
+
+def bc_mirror_clause(vals, kind, bc, dir):
+    model = build_model(kind, vals)
+    nv = {"convection": 1, "burgers": 1, "shallowwater": 2}.get(kind, 3)
+    PP = {"convection": [1], "burgers": [-1], "shallowwater": [1, -1]}.get(kind, [1, -1, 1])
+    W = [num_or(vals, "W%d" % k, DEFAULT_STATE[kind][k]) for k in range(nv)]
+    prm = {k[4:]: num(v) for k, v in vals.items() if k.startswith("prm_") and v is not None}
+    for k, v in {"ptot": 1.4, "rttot": 1.1, "p": 1.0}.items():
+        prm.setdefault(k, v)
+    prm["type"] = bc
+    p1, p2 = dict(prm), dict(prm)
+    if bc == "dirichlet":
+        p1["prim"] = [np.float64(0.7 + 0.1 * k) for k in range(nv)]
+        p2["prim"] = [s * x for s, x in zip(PP, p1["prim"])]
+    try:
+        o1 = [float(x) for x in model.namedBC(bc, dir, [np.float64(w) for w in W], p1)]
+        o2 = [float(x) for x in model.namedBC(bc, -dir, [np.float64(s * w) for s, w in zip(PP, W)], p2)]
+    except Exception as e:
+        print("  raised", e)
+        return True
+    show(kind=kind, bc=bc, dir=dir, W=W, out=o1, mirrored_out=o2)
+    if not (np.all(np.isfinite(o1)) and np.all(np.isfinite(o2))):
+        return True
+    return close(o2, [s * x for s, x in zip(PP, o1)])
